@@ -206,7 +206,14 @@ func e2eRandWorker(args []string) error {
 			w.Close()
 			w = nil
 		case killNow:
-			// crash in the middle of the history (live sessions): the datapath keeps its tables, a new incarnation starts against them
+			// crash in the middle of the history (live sessions): the datapath keeps its tables, a new incarnation starts against them;
+			// every other time the crash comes in the middle of a request, at the k-th command the datapath receives for it
+			if rng.Intn(2) == 0 {
+				w.KillAtWrite = 1 + rng.Intn(10)
+				g.Step()
+				sum.Stats["kill_mid_request"]++
+			}
+
 			w.KillAgent()
 
 			if w.Cfg.NotifyBess && rng.Intn(2) == 0 {
